@@ -1,12 +1,13 @@
 #!/bin/bash
 # usage: tools/thorough_sweep.sh "<seeds>"   — every check at the thorough tier under the given seeds
+# PROPS="02 14" restricts the properties
 # (meant for `vp run --with-repo -- tools/thorough_sweep.sh "0 1 2"`; uses $VP_RUN_REPO if set)
 SEEDS=${1:-"0"}
 cd "$(dirname "$0")/.." || exit 3
 [ -n "$VP_RUN_REPO" ] && export VERIF_REPO="$VP_RUN_REPO"
 mkdir -p build evidence replays
 for sd in $SEEDS; do
-for i in 01 02 03 04 05 06 07 08 09 10 11 12 13 14 15 16 17 18 19 20; do
+for i in ${PROPS:-01 02 03 04 05 06 07 08 09 10 11 12 13 14 15 16 17 18 19 20}; do
   ( s=$(date +%s); out=$(VERIF_SEED=$sd ./check C$i --tier thorough 2>&1); rc=$?; e=$(date +%s)
     echo "seed=$sd C$i rc=$rc $((e-s))s | $(echo "$out" | grep '^\[C' | head -1)"
     [ $rc -ne 0 ] && echo "$out" | grep -v WARNING | tail -12 ) &
